@@ -41,6 +41,7 @@ type Project struct {
 	Enums      []PEnum
 	Tables  []PTable
 	Queries []PQuery
+	Second  []PQuery // queries of a second query file (per-file import computation)
 	// Go options
 	Opts      map[string]bool // emit_json_tags, emit_db_tags, emit_prepared_queries, emit_interface, emit_exact_table_names, emit_empty_slices
 	CaseStyle string
@@ -313,5 +314,9 @@ func (p Project) ConfigV1(schemaPath, queriesPath string) string {
 }
 
 func (p Project) Files() map[string]string {
+	if len(p.Second) > 0 {
+		return map[string]string{"schema.sql": p.Schema(), "query.sql": p.QueryFile(p.Queries), "query2.sql": p.QueryFile(p.Second),
+			"sqlc.json": p.ConfigV1(`"schema.sql"`, `["query.sql","query2.sql"]`)}
+	}
 	return map[string]string{"schema.sql": p.Schema(), "query.sql": p.QueryFile(p.Queries), "sqlc.json": p.ConfigV1(`"schema.sql"`, `"query.sql"`)}
 }
